@@ -101,8 +101,16 @@ pub fn remove_position(
     position_bucket(storage).remove(&hash);
 
     // the record carried the block of the trader's last action, which restriction mode needs
-    // for the rest of this block: keep it under the same key
-    bucket(storage, KEY_LAST_REMOVAL).save(&hash, &block_height)
+    // for the rest of this block: keep it under the same key, with the names it belongs to
+    // (the key is a hash of the bare concatenation, which another vamm / trader pair can share)
+    bucket(storage, KEY_LAST_REMOVAL).save(
+        &hash,
+        &(
+            block_height,
+            position.vamm.to_string(),
+            position.trader.to_string(),
+        ),
+    )
 }
 
 /// The block in which the trader's position on the vamm was last removed (closed or liquidated)
@@ -114,10 +122,10 @@ pub fn read_last_removal_block(storage: &dyn Storage, vamm: &Addr, trader: &Addr
 
     let hash = hasher.finalize();
 
-    bucket_read::<u64>(storage, KEY_LAST_REMOVAL)
-        .may_load(&hash)
-        .unwrap_or_default()
-        .unwrap_or_default()
+    match bucket_read::<(u64, String, String)>(storage, KEY_LAST_REMOVAL).may_load(&hash) {
+        Ok(Some((block, v, t))) if v == vamm.as_str() && t == trader.as_str() => block,
+        _ => 0,
+    }
 }
 
 pub fn read_position(storage: &dyn Storage, vamm: &Addr, trader: &Addr) -> StdResult<Position> {
